@@ -108,17 +108,26 @@ pub fn check_input(input: &[u8], cfg: u8, script: Option<&Script>) -> Result<(us
             let mut reader = Reader::from_reader(input);
             apply_cfg(reader.config_mut(), cfg);
             let mut w = Writer::new(Vec::new());
+            // the same events detached from the input (`into_owned`) must write the same bytes
+            let mut w2 = Writer::new(Vec::new());
             for _ in 0..2 * input.len() + 8 {
                 match reader.read_event() {
                     Ok(Event::Eof) => break,
-                    Ok(e) => w.write_event(e).unwrap(),
+                    Ok(e) => {
+                        w2.write_event(e.clone().into_owned()).unwrap();
+                        w.write_event(e).unwrap()
+                    }
                     Err(quick_xml::Error::IllFormed(_)) => {}
                     Err(_) => break,
                 }
             }
-            w.into_inner()
+            let (a, b) = (w.into_inner(), w2.into_inner());
+            if a != b {
+                return Err(format!("writing the events after into_owned() gives {:?}, writing them as read gives {:?}", lossy_head(&b), lossy_head(&a)));
+            }
+            Ok(a)
         })
-        .map_err(|p| format!("panic while writing: {}", p))?;
+        .map_err(|p| format!("panic while writing: {}", p))??;
         if written != canon {
             return Err(format!("writing the events back gives {:?}, expected {:?}", lossy_head(&written), lossy_head(&canon)));
         }
